@@ -22,6 +22,7 @@ type UnitResult struct {
 	Trusted     []string
 	Inlined     []string
 	ByContract  []string
+	UsedLemmas  []string // "pkg.name" of lemmas assumed, "frame:pkg.name" of frame lemmas assumed
 	EncodeSec   float64
 	SolveSec    float64
 	Vacuity     string // "sat" expected for requires
@@ -299,6 +300,10 @@ func (f *Frame) callByContract(st *state, callee *ssa.Function, ct *FuncContract
 	envPost := u.funcEnv(callee, args, results, st, pre)
 	envPost.assume = true
 	for _, c := range ct.Ensures {
+		if knownFalseClause(ct.Key, c.Label) {
+			// a postcondition recorded as a known finding does not hold of the code: callers must not assume it
+			continue
+		}
 		term, _, err := u.evalClauseBool(envPost, c)
 		if err != nil {
 			u.specErrors = append(u.specErrors, fmt.Sprintf("%s ensures %v", ct.Key, err))
@@ -444,6 +449,10 @@ func encodeUnitMode(p *Program, db *ContractDB, root *ssa.Function, safetyOnly b
 	for k := range u.usedCtr {
 		res.ByContract = append(res.ByContract, k)
 	}
+	for k := range u.usedLemmas {
+		res.UsedLemmas = append(res.UsedLemmas, k)
+	}
+	sort.Strings(res.UsedLemmas)
 	sort.Strings(res.Trusted)
 	sort.Strings(res.Inlined)
 	sort.Strings(res.ByContract)
@@ -1108,4 +1117,30 @@ func (u *Unit) ctFor(key string) *FuncContract {
 		return nil
 	}
 	return ct
+}
+
+var knownFalseOnce sync.Once
+var knownFalse map[string]bool
+
+// knownFalseClause: "<func key>/ensures:<label>" (with or without a @retN suffix) is listed as a known finding.
+func knownFalseClause(key, label string) bool {
+	knownFalseOnce.Do(func() {
+		knownFalse = map[string]bool{}
+		for _, k := range loadKnownFindings() {
+			if k.Status != "known" {
+				continue
+			}
+			if i := strings.Index(k.Obligation, "/ensures:"); i >= 0 {
+				l := k.Obligation[i+len("/ensures:"):]
+				if j := strings.Index(l, "@"); j >= 0 {
+					l = l[:j]
+				}
+				if j := strings.Index(l, "/"); j >= 0 {
+					l = l[:j]
+				}
+				knownFalse[k.Obligation[:i]+"\x00"+l] = true
+			}
+		}
+	})
+	return knownFalse[key+"\x00"+label]
 }
